@@ -85,7 +85,7 @@ def check_copies(c, f, mode):
     for fld in FIELDS:
         asg = [n for n in g.nodes if n.kind == 'stmt' and stmt_assigns_attr(n.ast, fld) is not None
                and is_name(stmt_assigns_attr(n.ast, fld).value, 'self')]
-        ok = len(asg) == 1 and ctext(asg[0].ast.value, f) == 'self.ptyproc.' + fld
+        ok = len(asg) == 1 and ctext(asg[0].ast.value, f, stale_ok=True) == 'self.ptyproc.' + fld          # the process object that was waited on
         c.check(ok, f, asg[0].ast if asg else tn.ast, 'self.%s = ptyproc.%s (same-named field, no crossing)' % (fld, fld),
                 witness=str([norm(a.ast) for a in asg]) or 'missing', kind='ast', tag='copy:' + fld)
         if asg:
